@@ -57,7 +57,9 @@ package scope
 //@   trace_ensures true : ^(APPEND T:2 APPEND )?$
 
 // Wait returns the scope's error state after every registered task and child is done
-//@ func (*Scope).Wait [C11]
+// (C12: errors reported by tasks that are still running are reported by Wait / Close, because
+// Wait waits for them first - also on a scope that has already failed)
+//@ func (*Scope).Wait [C11 C12]
 //@   requires scp.ContextScope != nil
 //@   keeps stable
 //@   trace (*WaitGroup).Wait as WGWAIT
